@@ -72,3 +72,19 @@ Theorem C14_break_keeps_pending_depth :
   mout t_lazy_then_break ctx_new = Some (B "abz"%string, None) /\ rout t_lazy_then_break ctx_new = (B "abz"%string, SNone).
 Proof. exact break_keeps_pending_depth. Qed.
 Print Assumptions C14_break_keeps_pending_depth.
+
+(* ---- break inside an if-ok block reaches the enclosing loop ---- *)
+Theorem C14_break_inside_ifok :
+  forall flits lookup budget inc k (ci : condinfo) ki1 ki2 d r1 r2 rest c w,
+    cHlp ci = Interp.n_vok -> oIns k = n_static ->
+    exists c',
+      write_node flits lookup budget inc
+        (NCondOK k ci (NBlock BTrue ki1 (NBreak d :: r1) :: NBlock BFalse ki2 (NBreak d :: r2) :: rest)) c w =
+      Out c' w (Some EBreak) /\ d <= brkD c'.
+Proof. exact break_inside_ifok. Qed.
+Print Assumptions C14_break_inside_ifok.
+
+Theorem C14_break_inside_ifok_example :
+  mout t_break_in_ifok c_ifok = Some (B "az"%string, None) /\ rout t_break_in_ifok c_ifok = (B "az"%string, SNone).
+Proof. exact break_in_ifok_agrees. Qed.
+Print Assumptions C14_break_inside_ifok_example.
